@@ -91,6 +91,10 @@ CHECKS.update({
             "For generated valid blocks of 1-300 transactions the engine builds same-header variants (every root-preserving CVE-2012-2459 duplication pattern at all odd levels, witness stripped/altered/added, coinbase reserved value games, wrong/missing/shadowed commitments, the 64-byte-transaction collapse with ground txids, list edits) and delivers variant and genuine copies in seeded orders (header first, variant 0-3 times before/between/after the genuine block, forced or unrequested, withheld and re-delivered later, across reorgs and restarts). After every delivery: the genuine hash is never marked failed and a forced genuine delivery ends stored; what is stored under the hash reads back as exactly the genuine list; a variant is never connected or reported valid; a verdict for a root-indistinguishable variant is BLOCK_MUTATED; IsBlockMutated and FillBlock reject variants; merkle roots, mutation flags and merkle paths equal the model's own implementation.",
             "The P2P block/cmpctblock handlers are not driven (their gates IsBlockMutated / FillBlock are called directly); no manual invalidation or pruning in the workload.",
             CHAIN_TECH, "DESIGN.md §5 C04"),
+    "C27": ("nodesim/mempool-limits", "exploration",
+            "MempoolSim histories biased to limits plus own ops (coin splits, fill bursts crowded just above the rolling minimum fee, chain/fan-out/merge bursts up to the cluster limits, 11 TRUC family modes incl. sibling eviction, 11 ephemeral-dust family modes incl. prioritisation of dusty parents) with small mempools (45-240 kB) and small cluster count/size limits. After every acceptance: memory usage at the instant the acceptance completed <= max, every naive connected component within the count and size limits, after a size eviction GetMinFee > aggregate feerate of the evicted set; with standardness on and no disconnect in the history the TRUC topology rules; dust outputs only with zero base and modified fee and a single dust output, children of dusty unconfirmed parents spend the dust.",
+            "Cluster size is judged the way the node enforces it (summed weight against 4x the limit; the sum of vsizes may exceed the limit by rounding). Usage is read before any relinearising query (TrimToSize compares usage while the cut cluster is not yet relinearised; a later query can lift usage a few hundred bytes above max - noted, not claimed).",
+            "deterministic simulation: real node + mempool under seeded submission histories aimed at the limits; oracle = naive recomputation from mempool snapshots + removal notifications", "DESIGN.md §5 C27"),
     "C28": ("nodesim/mempool-testaccept", "exploration",
             "MempoolSim histories biased to test-accept plus edge-script coins (9 P2WSH witness scripts) spent in 25 variants labelled consensus-valid/invalid and policy-compliant/not from the BIPs, re-tests of every transaction ever built, unbroadcast marks, small-mempool runs where trimming and a rolling minimum fee occur. Every single-tx test_accept must leave entries, fees, usage, min fee, feerate diagram, prioritisation, unbroadcast set, sequence and totals unchanged; the real submission right after must give the same result type and reject reason (unless the mempool is at capacity); every policy-accepted transaction must be consensus-valid by label, by the model (final, mature, BIP68, value-conserving) and by TestBlockValidity of a block of it with its in-mempool ancestors.",
             "One known finding (lazy expiry: test_accept VALID, real submission 'mempool full') is listed in known_findings.txt. Package test_accept is only probed; policy=>consensus is decided for scripts the generator can build.",
